@@ -34,6 +34,8 @@
 #include <string.h>
 #include <stdint.h>
 #include <sys/mman.h>
+#include <unistd.h>
+#include <fcntl.h>
 
 #define MAXI 16
 #define GUARD 64
@@ -100,6 +102,26 @@ static void set_opt(assemblyline_t al, int opt) {
   asm_sib_no_base(al, (opt & 8) ? NASM : STRICT);
 }
 
+/* the debug listing of the library (asm_set_debug) goes to stdout, which carries this harness's protocol: while an instance with
+   the listing switched on is inside a library call, file descriptor 1 points to /dev/null */
+static int dbg[MAXI];
+static int saved_out = -1;
+static void mute_begin(int id) {
+  if (!dbg[id]) return;
+  fflush(stdout);
+  saved_out = dup(1);
+  int dn = open("/dev/null", O_WRONLY);
+  dup2(dn, 1);
+  close(dn);
+}
+static void mute_end(int id) {
+  if (!dbg[id] || saved_out < 0) return;
+  fflush(stdout);
+  dup2(saved_out, 1);
+  close(saved_out);
+  saved_out = -1;
+}
+
 int main(void) {
   char *line = NULL;
   size_t cap = 0;
@@ -143,6 +165,7 @@ int main(void) {
     switch (op[0]) {
     case 'N': {
       char *l = strtok_r(NULL, " ", &save);
+      dbg[id] = 0;
       if (l[0] == '-') {
         /* "-" or "-<len>": library-managed buffer; the length argument is documented as irrelevant then */
         raw[id] = NULL; blen[id] = 0;
@@ -170,6 +193,11 @@ int main(void) {
       puts("ok");
       break;
     }
+    case 'V': /* V <id> <0|1>: asm_set_debug */
+      dbg[id] = atoi(strtok_r(NULL, " ", &save));
+      asm_set_debug(inst[id], dbg[id] != 0);
+      puts("ok");
+      break;
     case 'K':
       asm_set_chunk_size(inst[id], (size_t)atol(strtok_r(NULL, " ", &save)));
       puts("ok");
@@ -181,7 +209,9 @@ int main(void) {
     case 'A': {
       char *txt = unhex(strtok_r(NULL, " ", &save));
       if (!raw[id]) block_behind(inst[id]);
+      mute_begin(id);
       int rc = asm_assemble_str(inst[id], txt);
+      mute_end(id);
       printf("%d %d\n", rc, asm_get_offset(inst[id]));
       free(txt);
       break;
@@ -192,7 +222,9 @@ int main(void) {
       int d = atoi(strtok_r(NULL, " ", &save));
       int dest = -777;
       if (!raw[id]) block_behind(inst[id]);
+      mute_begin(id);
       int rc = asm_assemble_string_counting_chunks(inst[id], txt, c, d ? &dest : NULL);
+      mute_end(id);
       if (d) printf("%d %d %d\n", rc, asm_get_offset(inst[id]), dest);
       else printf("%d %d -\n", rc, asm_get_offset(inst[id]));
       free(txt);
@@ -201,7 +233,9 @@ int main(void) {
     case 'R': { /* R <id> <path> <content|missing>: asm_assemble_file (the model gets the content, the library the path) */
       char *path = strtok_r(NULL, " ", &save);
       if (!raw[id]) block_behind(inst[id]);
+      mute_begin(id);
       int rc = asm_assemble_file(inst[id], path);
+      mute_end(id);
       printf("%d %d\n", rc, asm_get_offset(inst[id]));
       break;
     }
@@ -212,7 +246,9 @@ int main(void) {
       int d = atoi(strtok_r(NULL, " ", &save));
       int dest = -777;
       if (!raw[id]) block_behind(inst[id]);
+      mute_begin(id);
       int rc = asm_assemble_file_counting_chunks(inst[id], path, c, d ? &dest : NULL);
+      mute_end(id);
       if (d) printf("%d %d %d\n", rc, asm_get_offset(inst[id]), dest);
       else printf("%d %d -\n", rc, asm_get_offset(inst[id]));
       break;
